@@ -132,7 +132,25 @@ def prop_C09(run):
     run.rules_run += ["FIX1", "FIX4 counter bounded by the budget, flags derived from the counter, max_iterations read nowhere else, asserts only in a last pass, --iters 0 rejected"]
 
 
+def prop_C08(run):
+    import rules_idx, rules_fix
+    rules_idx.gates(run)
+    rules_fix.fix3(run)
+    rules_idx.tab_idx(run)
+    rules_idx.static_known(run)
+    run.rules_run += ["GATE who-touches audit of the two optimisation switches", "FIX3", "TAB-idx writer/reader/matcher agreement of the rule-prefix index", "SK conservativeness of is_value_statically_known per Expr variant"]
+
+
+def prop_C07(run):
+    import rules_idx
+    rules_idx.tab_idx(run)
+    rules_idx.match_shape(run)
+    run.rules_run += ["TAB-idx (case normalisation, token classes, whitespace skipping)", "MATCH shape of match_with_rule / match_instr selection"]
+
+
 PROPS = {
+    "C08": prop_C08,
+    "C07": prop_C07,
     "C02": prop_C02,
     "C09": prop_C09,
     "C03": prop_C03,
